@@ -457,10 +457,22 @@ theorem C12_type_partial (t : ExcType) (hwf : t.wf = true) (hcls : inheritsBuilt
   unfold ExcType.wf at hwf
   unfold inheritsBuiltinInit at hcls
   unfold expectedSame inKnown isKeyError
+  unfold plainBuiltin at *
   simp only at hwf hcls ⊢
-  generalize hkn : Gen.Errors.knownStringConstructorErrors.contains name = kn at *
-  by_cases hnbE : nb = "Exception" <;> by_cases hnm : nb = name <;> by_cases hke : name = "KeyError" <;>
-  cases ud <;> cases me <;> cases ie <;> cases ui <;> cases kn <;> simp_all
+  by_cases hnbE : nb = "Exception"
+  · subst hnbE
+    generalize hkn : Gen.Errors.knownStringConstructorErrors.contains name = kn at *
+    by_cases hnm : "Exception" = name <;> by_cases hke : name = "KeyError" <;>
+    cases ud <;> cases me <;> cases ie <;> cases ui <;> cases kn <;> simp_all
+  · by_cases hnm : nb = name
+    · subst hnm
+      generalize hkn : Gen.Errors.knownStringConstructorErrors.contains nb = kn at *
+      by_cases hke : nb = "KeyError" <;>
+      cases ud <;> cases me <;> cases ie <;> cases ui <;> cases kn <;> simp_all
+    · generalize hkn : Gen.Errors.knownStringConstructorErrors.contains name = kn at *
+      generalize hkb : Gen.Errors.knownStringConstructorErrors.contains nb = kb at *
+      by_cases hke : name = "KeyError" <;> by_cases hkb2 : nb = "KeyError" <;>
+      cases ud <;> cases me <;> cases ie <;> cases ui <;> cases kn <;> cases kb <;> simp_all
 
 section type_examples
 /-- `class U(Exception): pass` keeps its type; `ZeroDivisionError` (own slot wrapper, not in the list)
